@@ -28,6 +28,20 @@ def corpus():
     return [{"k": 900, "args": [[-1]], "call": a, "group": "corpus-F9"}, {"k": 900, "args": [[-2]], "call": b, "group": "corpus-F9"}]
 
 
+def _punch(rng, flw, nr, nc):
+    """nodata holes away from the last row and column (cells draining into a hole become pits): outlet-less coarse
+    cells at positions other than the top-left corner"""
+    if nr < 4 or nc < 4 or rng.random() < 0.5:
+        return flw
+    for _ in range(rng.randint(1, 2)):
+        h, w = rng.randint(2, max(2, nr // 2)), rng.randint(2, max(2, nc // 2))
+        r0, c0 = rng.randint(0, nr - 2), rng.randint(0, nc - 2)
+        for r in range(r0, min(nr - 1, r0 + h)):
+            for c in range(c0, min(nc - 1, c0 + w)):
+                flw[r * nc + c] = 247
+    return flw
+
+
 def _stem_raster(rng, nr, nc):
     """every cell drains towards the bottom-right corner (E / SE / S at random), so long stems run along the last
     row and column and through the last pixel; optional nodata block in the top-left corner"""
@@ -47,7 +61,7 @@ def _stem_raster(rng, nr, nc):
                     flw.append(4)
                 else:
                     flw.append(rng.choice([1, 1, 2]) if c < nc - 1 else 4)
-        return flw
+        return _punch(rng, flw, nr, nc)
     for r in range(nr):
         for c in range(nc):
             if r < br and c < bc:
@@ -60,10 +74,35 @@ def _stem_raster(rng, nr, nc):
                 flw.append(4)
             else:
                 flw.append(rng.choice([1, 2, 4]))
-    return flw
+    return _punch(rng, flw, nr, nc)
 
 
 def cases(tier, rng):
+    # the iterative method on larger rasters with nodata: its later stages (river-length optimisation, error
+    # minimisation) only act when the coarse grid has room (round-2 seeds)
+    for t in range(6000 if tier == "quick" else 12000):
+        nr, nc = rng.randint(7, 15), rng.randint(7, 15)
+        s = rng.choice([2, 3, 3, 4])
+        if rng.random() < 0.3:
+            flw = _stem_raster(rng, nr, nc)
+        else:
+            flw = nets.random_d8_raster(rng, nr, nc, p_nodata=rng.choice([0.05, 0.15, 0.3, 0.45]))
+        if rng.random() < 0.6:      # whole coarse cells without data next to the network
+            for _ in range(rng.randint(1, 3)):
+                h, w_ = rng.randint(s, 2 * s), rng.randint(s, 2 * s)
+                r0, c0 = rng.randrange(nr), rng.randrange(nc)
+                if rng.random() < 0.6:
+                    r0, c0 = r0 - r0 % s, c0 - c0 % s
+                for r in range(r0, min(nr, r0 + h)):
+                    for c in range(c0, min(nc, c0 + w_)):
+                        flw[r * nc + c] = 247
+        ds = nets.d8_decode(flw, nr, nc)
+        if not nets.pits(ds):
+            continue
+        user = rng.random() < 0.2
+        w = [rng.randint(1, 4) for _ in range(nr * nc)] if user else None
+        yield {"k": 900, "args": [[100000 + t]], "call": {"nr": nr, "nc": nc, "ds": ds, "s": s, "method": "ihu", "w": w, "scale": 1,
+                                                          "outside": rng.choice([0, 7]) if user else 0}, "group": f"ihu-large-s{s}"}
     n = 1200 if tier == "quick" else 10000
     for t in range(n):
         style = rng.random()
@@ -86,8 +125,11 @@ def cases(tier, rng):
         w = [rng.randint(1, 4) for _ in range(nr * nc)] if user else None
         # user areas also in fractional units (km2-like): the order of the values is what the kernels use
         scale = rng.choice([1, 0.25, 0.0081]) if user else 1
-        yield {"k": 900, "args": [[t]], "call": {"nr": nr, "nc": nc, "ds": ds, "s": s, "method": method, "w": w, "scale": scale},
-               "group": f"{method}-s{s}" + ("-user" if user else "")}
+        # a user area grid may carry (large) positive values on cells outside the network, e.g. a full-domain grid with a
+        # clipped basin (defect repaired by 1728f96)
+        outside = rng.choice([0, 0, 3, 50]) if user else 0
+        yield {"k": 900, "args": [[t]], "call": {"nr": nr, "nc": nc, "ds": ds, "s": s, "method": method, "w": w, "scale": scale, "outside": outside},
+               "group": f"{method}-s{s}" + ("-user" if user else "") + ("-outside" if outside else "")}
 
 
 def _acc(ds, w):
@@ -115,6 +157,8 @@ def impl(case):
         upa_used = [int(x) if x > 0 else 0 for x in np.asarray(flw.upstream_area()).ravel().tolist()]
     else:
         acc = _acc(ds, c["w"])
+        if c.get("outside"):
+            acc = [(a if ds[i] >= 0 else c["outside"]) for i, a in enumerate(acc)]
         upa = (np.array(acc, dtype=np.float64) * c.get("scale", 1)).reshape(nr, nc)
         upa_used = [int(a) if ds[i] >= 0 else 0 for i, a in enumerate(acc)]
     upa_before = None if upa is None else upa.copy()
